@@ -137,14 +137,124 @@ fn scenario() -> impl Strategy<Value = Scenario> {
     (seed32(), prop::sample::select(vec![1u8, 2, 8, 64]), prop_oneof![2 => Just(0u8), 1 => 1u8..=50], proptest::collection::vec(step, 1..=3)).prop_map(|(seed, batch_size, fault, steps)| Scenario { seed, batch_size, fault, stats: false, steps })
 }
 
+/// configuration loading in-process (file and ENV), valid and invalid variants, under the capturing logger
+#[derive(Debug, Clone, serde::Serialize, serde::Deserialize)]
+pub struct ConfigLeak {
+    pub seed: Hex,
+    pub via_env: bool,
+    /// index into CONFIG_VARIANTS
+    pub variant: u8,
+}
+
+/// (name, extra settings, seed override: None = the 64-hex seed; Some(n) = first n hex chars of it)
+pub const CONFIG_VARIANTS: [(&str, &[(&str, &str)], Option<usize>); 14] = [
+    ("valid", &[], None),
+    ("valid-all-options", &[("batch_size", "16"), ("status_interval", "30"), ("fault_percentage", "5"), ("num_workers", "2")], None),
+    ("batch-size-300", &[("batch_size", "300")], None),
+    ("batch-size-0", &[("batch_size", "0")], None),
+    ("fault-77", &[("fault_percentage", "77")], None),
+    ("workers-0", &[("num_workers", "0")], None),
+    ("client-stats-no-dir", &[("client_stats", "on")], None),
+    ("client-stats-bad-dir", &[("client_stats", "on"), ("persistence_directory", "/nonexistent/dir")], None),
+    ("kms-aws-with-plaintext-seed", &[("kms_protection", "arn:aws:kms:us-east-2:111122223333:key/1234abcd-12ab-34cd-56ef-1234567890ab")], None),
+    ("kms-gcp-with-plaintext-seed", &[("kms_protection", "projects/p/locations/global/keyRings/r/cryptoKeys/k")], None),
+    ("seed-too-short", &[], Some(60)),
+    ("seed-odd-length", &[], Some(63)),
+    ("bad-interface", &[("interface", "not-an-address")], None),
+    ("port-0", &[("port", "0")], None),
+];
+
+fn check_config_leak(ctx: &mut Ctx, c: &ConfigLeak) -> Res {
+    use roughenough::config::{is_valid_config, make_config};
+    ctx.eval();
+    let needles = Needles::new(&c.seed.0);
+    let (vname, extra, seed_cut) = CONFIG_VARIANTS[c.variant as usize % CONFIG_VARIANTS.len()];
+    let seed_hex = hex(&c.seed.0);
+    let seed_txt = match seed_cut {
+        Some(n) => seed_hex[..n].to_string(),
+        None => seed_hex.clone(),
+    };
+    let mut settings: Vec<(String, String)> = vec![("interface".into(), "127.0.0.1".into()), ("port".into(), "8686".into()), ("seed".into(), seed_txt)];
+    for (k, v) in extra {
+        settings.retain(|x| x.0 != *k);
+        settings.push((k.to_string(), v.to_string()));
+    }
+    let _ = take_logs();
+    let dir = crate::proclab::scratch_dir("c20cfg");
+    let arg = if c.via_env {
+        for (k, v) in &settings {
+            std::env::set_var(format!("ROUGHENOUGH_{}", k.to_uppercase()), v);
+        }
+        "ENV".to_string()
+    } else {
+        let path = dir.join("c.cfg");
+        let body: String = settings.iter().map(|(k, v)| format!("{}: {}\n", k, v)).collect();
+        std::fs::write(&path, body).unwrap();
+        path.display().to_string()
+    };
+    let mut emitted: Vec<String> = vec![];
+    let r = no_unwind(|| {
+        let cfg = make_config(&arg);
+        match cfg {
+            Ok(cfg) => {
+                let valid = is_valid_config(cfg.as_ref());
+                if valid {
+                    // a worker is created from this configuration, like polling_loop does
+                    let sock = mio::net::UdpSocket::bind(&"127.0.0.1:0".parse().unwrap()).unwrap();
+                    let q = std::sync::Arc::new(roughenough::stats::StatsQueue::new(4));
+                    let server = roughenough::server::Server::new(cfg.as_ref(), sock, q);
+                    format!("started {} {}", server.get_public_key(), server.thread_name())
+                } else {
+                    "invalid".to_string()
+                }
+            }
+            Err(e) => format!("error {:?}", e),
+        }
+    });
+    if c.via_env {
+        for (k, _) in &settings {
+            std::env::remove_var(format!("ROUGHENOUGH_{}", k.to_uppercase()));
+        }
+    }
+    let _ = std::fs::remove_dir_all(&dir);
+    match r {
+        Ok(s) => emitted.push(s),
+        // a panic message goes to stderr: it is emitted too
+        Err(p) => emitted.push(p),
+    }
+    let logs = take_logs();
+    for rec in logs.iter().chain(emitted.iter()) {
+        ctx.eval();
+        if let Some(w) = needles.find(rec.as_bytes()) {
+            return ctx.fail(
+                format!("secret-in-log|config|{}", vname),
+                format!("configuration variant {:?} ({} source, log level {:?}): record {:?} contains {}", vname, if c.via_env { "ENV" } else { "file" }, log::max_level(), rec, w),
+            );
+        }
+    }
+    ctx.class(&format!("c20:config:{}:{}:level={:?}", if c.via_env { "env" } else { "file" }, vname, log::max_level()));
+    ctx.nontrivial(&(&c.seed.0, c.via_env, c.variant % CONFIG_VARIANTS.len() as u8, format!("{:?}", log::max_level())));
+    Ok(())
+}
+
 pub fn run(ctx: &mut Ctx) -> Vec<Violation> {
     let level = level_from_index(ctx.shard + 4); // shards 0,1 -> Debug, Trace ... all six levels over the shards
     install_logger(level);
     let t = ctx.tier;
     let mut out = vec![];
-    out.extend(run_prop(ctx, &format!("inproc-{:?}", level), t.pick(2_400, 48_000), 300, scenario(), |ctx, sc| {
+    out.extend(run_prop(ctx, &format!("inproc-{:?}", level), t.pick(12_000, 96_000), 300, scenario(), |ctx, sc| {
         ctx.sample("inproc", 1, &(sc.seed.clone(), sc.steps.iter().map(|s| s.len()).collect::<Vec<_>>()));
         check_leak(ctx, sc)
+    }));
+    // configuration loading (file / ENV, valid and invalid variants) at this worker's log level
+    let cl = (seed32().prop_map(|mut h| {
+        h.0[0] |= 0xa0; // keep the YAML scalar a string
+        h
+    }), any::<bool>(), 0u8..CONFIG_VARIANTS.len() as u8)
+        .prop_map(|(seed, via_env, variant)| ConfigLeak { seed, via_env, variant });
+    out.extend(run_prop(ctx, &format!("config-{:?}", level), t.pick(4_000, 40_000), 100, cl, |ctx, c| {
+        ctx.sample("config", 2, c);
+        check_config_leak(ctx, c)
     }));
     if ctx.shard == 0 {
         ctx.note(format!("needle windows per seed: {}", Needles::new(&[1u8; 32]).count));
@@ -165,6 +275,18 @@ pub fn replay(ctx: &mut Ctx, sub: &str, case: &Value) -> Res {
         };
         install_logger(lvl);
         return replay_case::<Scenario, _>(ctx, case, |ctx, sc| check_leak(ctx, sc));
+    }
+    if let Some(l) = sub.strip_prefix("config-") {
+        let lvl = match l {
+            "Off" => log::LevelFilter::Off,
+            "Error" => log::LevelFilter::Error,
+            "Warn" => log::LevelFilter::Warn,
+            "Info" => log::LevelFilter::Info,
+            "Debug" => log::LevelFilter::Debug,
+            _ => log::LevelFilter::Trace,
+        };
+        install_logger(lvl);
+        return replay_case::<ConfigLeak, _>(ctx, case, |ctx, c| check_config_leak(ctx, c));
     }
     super::procs::c20_replay(ctx, sub, case)
 }
